@@ -9,13 +9,13 @@ pub(crate) struct XText<'a>(pub(crate) &'a str);
 impl Display for XText<'_> {
     fn fmt(&self, f: &mut Formatter<'_>) -> FmtResult {
         let mut rest = self.0;
-        while let Some(idx) = rest.find(|c| c < '!' || c == '+' || c == '=') {
+        while let Some(idx) = rest.find(|c| c < '!' || c == '+' || c == '=' || c == '\x7f') {
             let (start, end) = rest.split_at(idx);
             f.write_str(start)?;
 
             let mut end_iter = end.char_indices();
             let (_, c) = end_iter.next().expect("char");
-            write!(f, "+{:X}", c as u8)?;
+            write!(f, "+{:02X}", c as u8)?;
 
             if let Some((idx, _)) = end_iter.next() {
                 rest = &end[idx..];
